@@ -203,6 +203,13 @@ def _terminators(obs):
     for c in obs.calls:
         if c["do"] in ("abort", "halt", "stop") and c.get("outcome") == "return":
             acc.add(c["do"])
+    # a main-thread abort()/stop()/halt() that took effect (state change inside its stage) but then raised because
+    # the plan's cleanup failed was accepted all the same
+    name = {"abort": "aborting", "halt": "halting", "stop": "stopping"}
+    for si, c in enumerate(obs.calls):
+        if c["do"] in name and c.get("outcome") == "raise":
+            if any(new == name[c["do"]] and meta["seg"] == si for (new, _o, _h), meta in zip(obs.states, obs.state_meta)):
+                acc.add(c["do"])
     return acc
 
 
